@@ -19,13 +19,13 @@ Proof. repeat split; reflexivity. Qed.
 
 Lemma net_pernic sp l :
   wf_nics l = true ->
-  net_io_counters true (k_netdev sp l)
+  net_io_counters false true (k_netdev sp l)
   = XV (Val (RDict (map (fun i => (dec (n_name i), nt_nic (spec_nic i))) l))).
 Proof. exact (net_exact sp l true). Qed.
 
 Lemma net_total sp l :
   wf_nics l = true ->
-  net_io_counters false (k_netdev sp l)
+  net_io_counters false false (k_netdev sp l)
   = XV (Val (match l with [] => RNone | _ => RTuple (nt_nic (nic_sum (map spec_nic l))) end)).
 Proof. exact (net_exact sp l false). Qed.
 
